@@ -346,8 +346,29 @@ def c08(run):
         "Non-trivial = distinct scenario with at least one container type.")
 
 
+def big_interfaces(run, n, sizes=(34, 40, 64)):
+    """Interfaces with many distinct-named methods whose explicit codes repeat, in no particular order (the bookkeeping
+    of "the earlier method with that code" must not depend on how many there are)."""
+    out = []
+    for k in range(n):
+        size = sizes[k % len(sizes)]
+        pool = [str(c) for c in run.rng.sample(range(0, 50), run.rng.randint(3, 12))]
+        toks = [D.T("package"), D.T("p", "IDENT"), D.T(";"), D.T("interface"), D.T("I", "IDENT"), D.T("{")]
+        for m in range(size):
+            toks += [D.T("void"), D.T("m%d" % m, "IDENT"), D.T("("), D.T(")")]
+            if run.rng.random() < 0.9:
+                toks += [D.T("="), D.T(run.rng.choice(pool), "INTEGER")]
+            toks.append(D.T(";"))
+            if run.rng.random() < 0.05:
+                toks += [D.T("const"), D.T("int"), D.T("K%d" % m, "IDENT"), D.T("="), D.T("1"), D.T(";")]
+        toks.append(D.T("}"))
+        out.append(F.project_scenario({"files": [{"id": "a", "toks": toks}], "main": "a"}, "big-interface"))
+    return out
+
+
 @plan("C09")
 def c09(run):
+    run.add(big_interfaces(run, 9 if run.tier == "quick" else 120))
     return validation_plan(run, ["meth"], nt_methods2, 300, 3000,
         "TLC enumerates family 'meth': all method sequences up to length 3 (quick) / 4 (thorough) over 3 names x {no code, "
         "3 codes}, with and without interleaved constants; plus random interfaces with long sequences and large / "
